@@ -115,6 +115,9 @@ def run_case(ctx, items, backend, mode, bparam):
     if backend == "file":
         stream = doubles.RecordingStream(data, budget=budget, pauses=pauses)
         counter = stream
+    elif backend == "serial":  # the surface of a pyserial port (in_waiting, reset_input_buffer, timeout ...)
+        stream = doubles.SerialLikeStream(data, budget=budget, pauses=pauses)
+        counter = stream
     elif backend == "buffered":
         raw = doubles.RawChunky(data, bparam["sizes"])
         stream = doubles.CountingStream(io.BufferedReader(raw, buffer_size=bparam.get("bufsize", 64)), budget)
@@ -157,7 +160,7 @@ def run_case(ctx, items, backend, mode, bparam):
     def more_to_come():
         if not pauses:
             return False
-        if backend == "file":
+        if backend in ("file", "serial"):
             return not stream.exhausted
         return sock._vpos < len(data) or bool(sock._sched[sock._si:])
 
@@ -274,9 +277,9 @@ def run_case(ctx, items, backend, mode, bparam):
 
 
 def backend_param(rng, backend, total, bounds=()):
-    if backend == "file" and bounds and rng.random() < 0.35:
+    if backend in ("file", "serial") and bounds and rng.random() < 0.35:
         return {"pauses": sorted(rng.sample(list(bounds), rng.randint(1, min(3, len(bounds)))))}
-    if backend in ("file", "pipe", "makefile"):
+    if backend in ("file", "pipe", "makefile", "serial"):
         return {}
     if backend == "buffered":
         return {"sizes": [rng.choice((1, 2, 3, 5, 17, 64, 1000)) for _ in range(rng.randint(1, 6))],
@@ -301,10 +304,46 @@ def backend_param(rng, backend, total, bounds=()):
 def run(ctx):
     common.quiet_logging()
     rng = ctx.rng
+    # the repository's recorded logs as they are (realistic sequences: repeated station messages, epochs, mixed
+    # NMEA / UBX traffic), over every backend, with pauses between frames
+    logs = [(n, d[:60000]) for n, d in common.recorded_logs(4000000) if "BAD" not in n.upper()]
+    for k_, (name_, data_) in enumerate(logs):
+        items = log_items(data_)
+        if len(items) < 2:
+            continue
+        bounds, off = [], 0
+        for _, b, _p in items[:-1]:
+            off += len(b)
+            bounds.append(off)
+        for backend in ("file", "buffered", "socket", "pipe"):
+            if (k_ + len(backend)) % ctx.nworkers % 4 != ctx.worker % 4:
+                continue
+            run_case(ctx, items, backend, rng.choice((0, 1, 2)), backend_param(rng, backend, len(data_), bounds))
+            ctx.hit("recorded_logs_streamed")
+    # long runs: > 1000 complete NMEA / UBX items between two frames; > 1 MiB through one socket reader
+    if ctx.worker % 4 == 1 or not ctx.quick:
+        f1, p1, _ = streams.rand_frame(rng, "defined")
+        f2, p2, _ = streams.rand_frame(rng, "unknown")
+        mid = [("nmea", streams.nmea(rng, 20), None) if rng.random() < 0.7 else ("ubx", streams.ubx(rng, 12), None)
+               for _ in range(2200)]
+        for backend in ("file", "socket"):
+            run_case(ctx, [("defined", f1, p1)] + mid + [("unknown", f2, p2)], backend, rng.choice((0, 1)),
+                     backend_param(rng, backend, 0))
+        ctx.hit("long_foreign_runs")
+    if ctx.worker % 4 == 2 or not ctx.quick:
+        big = []
+        for i in range(2400):
+            fr, p, _ = streams.rand_frame(rng, rng.choice(("len1023", "len1022", "len255", "unknown")))
+            big.append(("big", fr, p))
+        run_case(ctx, big, "socket", 0, {"sizes": [rng.choice((1460, 4096, 8192, 65536)) for _ in range(1200)],
+                                         "bufsize": rng.choice((4096, 65536))})
+        ctx.hit("long_socket_sessions")
     advs = (None, None, "zero-first", "zero-last", "zero-max", "unknown-run", "filler-run")
     for i in range(ctx.n(24000, 300000)):
         items = make_items(rng, adversarial=advs[i % len(advs)])
-        backend = ("file", "buffered", "socket", "file", "buffered", "socket", "pipe", "makefile")[i % 8]
+        backend = ("file", "buffered", "socket", "serial", "buffered", "socket", "pipe", "makefile", "file")[i % 9]
+        if backend == "socket" and i % 5 == 0:
+            items.insert(0, ("greeting", streams.greeting(rng), None))  # what a caster says before the data
         mode = rng.choice((0, 1, 2))
         total = sum(len(b) for _, b, _ in items)
         bounds, off = [], 0
@@ -312,6 +351,28 @@ def run(ctx):
             off += len(b)
             bounds.append(off)
         run_case(ctx, items, backend, mode, backend_param(rng, backend, total, bounds))
+
+
+def log_items(data):
+    """A recorded log as an item list: frames found by own framing, everything between them as one foreign item."""
+    items, prev = [], 0
+    for off, fr in common.split_frames(data):
+        if off > prev:
+            items.append(("gap", data[prev:off], None))
+        ident = common.expected_identity(fr[3:-3])
+        short = False
+        if ident in refmodel.identities():
+            try:
+                refmodel.decode(ident, fr[3:-3])
+            except refmodel.Short:
+                short = True  # CRC-valid but too short for its type (a caster's truncated 1302): not a valid frame
+            except refmodel.DefinitionError:
+                pass
+        items.append(("rec-short", fr, None) if short else ("rec", fr, fr[3:-3]))
+        prev = off + len(fr)
+    if prev < len(data):
+        items.append(("gap", data[prev:], None))
+    return items
 
 
 def replay(ctx, p):
